@@ -168,6 +168,8 @@ def configs(quick):
     for L, w in ((1, 1), (2, 1), (5, 1), (2, 2), (4, 2), (8, 2), (6, 2)):
         out.append({"kind": "reversed", "L": L, "w": w, "s": 4})
     out.append({"kind": "reversed", "L": 4, "w": 2, "tail": 3, "s": 4})
+    for L, w in ((3, 3), (6, 3), (12, 3), (8, 4), (12, 4), (6, 6), (12, 6), (10, 5)):
+        out.append({"kind": "reversed", "L": L, "w": w, "s": w})
     # nestings the tool builds
     for chain, fsize, hdr, L in (([1, 0], 8, 2, 6), ([2, 0, 1], 12, 2, 10), ([2, 0, 1], 11, 3, 6),
                                  ([0, 2], 8, 0, 8), ([1, 0], 7, 2, 4), ([1, 0], 8, 4, 4), ([0, 3, 2], 12, 1, 11)):
